@@ -13,8 +13,8 @@ import YashModel.Syntax.Spec
 open YashModel YashModel.Syntax YashModel.Proto
 
 def runLine (line : String) : String :=
+  if line.startsWith "R " then "total\t-" else
   match tokenize line with
-  | "R" :: _ => "total\t-"
   | "T" :: toks =>
     match parseSx toks with
     | some (sx, _) =>
